@@ -333,14 +333,95 @@ applyF = z3.Function("apply__", models.Est, models.Row, z3.IntSort())        # g
 
 @contract(P + "::PiecewiseEstimator._mapping_train", "C08")
 class MappingTrain(Contract):
-    """TREE BINNER, PROVED (the real loop over the leaves; `mapping` is a dictionary of unbounded symbolic size): every training row gets
-    the bucket number of its leaf; buckets are numbered 0 .. len(mapping)-1 without repetition, one per leaf that holds a training row;
-    leaves lists all leaves of the tree.  This establishes the well-formedness transform_bins / predict rely on.  The discretizer
-    branch (sets of tuples, sorted) and the summary used by fit are the bounded part: see result()."""
-    symbolic_dicts = {"mapping": "int"}
+    """PROVED for both kinds of binner.  TREE (the real loop over the leaves; `mapping` is a dictionary of unbounded symbolic size): every
+    training row gets the bucket number of its leaf; buckets are numbered 0 .. len(mapping)-1 without repetition, one per leaf that holds a
+    training row; leaves lists all leaves of the tree.  DISCRETIZER (three real loops; `unique` is a set and `mapping` a dictionary of cell
+    tuples, both of unbounded symbolic size; sorted(unique) is a sequence without repetition of exactly the elements): every training row gets
+    the number of its cell, numbers are 0 .. len(mapping)-1 without repetition, one bucket per cell that holds a training row and no
+    other, leaves lists the cells in the order of their numbers.  This establishes the well-formedness transform_bins / predict rely
+    on.  The summary used by fit (1..2 buckets, a concrete dictionary) is the bounded part: see result()."""
+    variants = ["tree", "bins"]
+    # `mapping = {}` is a dictionary of unbounded symbolic size keyed by leaf ids (tree binner) / by cell tuples (discretizer);
+    # `unique = set()` of the discretizer branch is a set of cell tuples of unbounded symbolic size
+    symbolic_dicts = {"mapping": (lambda E: "key" if E.ps.get("variant") == "bins" else "int")}
+    symbolic_sets = {"unique": "key"}
     max_paths = 20000
 
+    def _setup_bins(self, E):
+        binner = models.new_estimator(E, "binner_", methods=ESTM + ("transform",), fitted=True)
+        binner.fields["$fitted_attrs"] = set()
+        binner.fields["$sparse_transform"] = True
+        s = E.new_obj(P + "::PiecewiseRegressor", dict(binner=models.new_estimator(E, "binner", methods=ESTM), estimator=models.new_estimator(E, "estimator", methods=ESTM),
+                                                       n_jobs=None, verbose=False, binner_=binner))
+        return dict(self=s, X=E.nd("X", (E.size("n", 1), E.size("d", 1))), binner=binner, _bins=True)
+
+    @staticmethod
+    def _rowkey(E, L_or_a, r):
+        b, X = L_or_a["binner"], L_or_a["X"]
+        st = b.fields["$state"]
+        k_ = _bins_key(E, st, X, r, models.widthF["transform"](st))
+        return getattr(k_, "term", k_)
+
+    @staticmethod
+    def _first(E, ctx, with_definition=False):
+        """ghost: the first training row whose cell tuple is a given key, -1 for a key that no training row has (lemma schema
+        first_occurrence, lemmas/Sums.lean: such a function exists for every sequence of keys; instantiated for the row keys of X).
+        The loops only need `first(key of row r) in [0, r]`; the other half of the definition is used once, in the postcondition."""
+        from pyvc import sparsemodel
+        F = E.ps.get("c08_first")
+        n = z(ctx["X"].shape[0])
+        if F is None:
+            F = z3.Function("first_row_with_cell", sparsemodel.Key, z3.IntSort())
+            E.ps["c08_first"] = F
+            r = z3.Int("fr!first")
+            rk = MappingTrain._rowkey(E, ctx, r)
+            E.assume(z3.ForAll([r], z3.Implies(z3.And(r >= 0, r < n), z3.And(F(rk) >= 0, F(rk) <= r))))
+            E.used_lemmas.add("first_occurrence")
+        if with_definition and not E.ps.get("c08_first_def"):
+            E.ps["c08_first_def"] = True
+            key = z3.Const("fk!first", sparsemodel.Key)
+            E.assume(z3.ForAll([key], z3.Implies(F(key) >= 0, z3.And(F(key) < n, MappingTrain._rowkey(E, ctx, F(key)) == key)), patterns=[F(key)]))
+        return F
+
+    @staticmethod
+    def _inv_unique(E, L):
+        """loop over the rows that collects the cell tuples: exactly the tuples of the rows seen so far"""
+        u = L["unique"]
+        from pyvc import sparsemodel
+        r, key = z3.Int(models.fresh_name("ur")), z3.Const(models.fresh_name("uk"), sparsemodel.Key)
+        k = z(L.k)
+        first = MappingTrain._first(E, L)
+        return {"tuples_of_the_rows_seen_so_far_are_in_the_set": z3.ForAll([r], z3.Implies(z3.And(r >= 0, r < k), z3.Select(u.member, MappingTrain._rowkey(E, L, r)))),
+                "the_set_holds_nothing_else": z3.ForAll([key], z3.Implies(z3.Select(u.member, key), z3.And(first(key) >= 0, first(key) < k))),
+                "size_within_the_rows_seen": z3.And(z(u.count) >= 0, z(u.count) <= k)}
+
+    @staticmethod
+    def _inv_number(E, L):
+        """loop that numbers the sorted tuples: the first k of them have the numbers 0..k-1"""
+        mp, leaves = L["mapping"], L["leaves"]
+        _, item, pos = leaves.sorted_of
+        from pyvc import sparsemodel
+        j, key = z3.Int(models.fresh_name("nj")), z3.Const(models.fresh_name("nk"), sparsemodel.Key)
+        k = z(L.k)
+        return {"first_k_tuples_are_numbered_by_their_position": z3.ForAll([j], z3.Implies(z3.And(j >= 0, j < k), z3.And(
+                    z3.Select(mp.member, item(j)), z3.Select(mp.value, item(j)) == j))),
+                "nothing_else_is_numbered": z3.ForAll([key], z3.Implies(z3.Select(mp.member, key), z3.And(
+                    z3.Select(mp.value, key) >= 0, z3.Select(mp.value, key) < k, item(z3.Select(mp.value, key)) == key))),
+                "as_many_entries_as_tuples_numbered": z(mp.count) == k}
+
+    @staticmethod
+    def _inv_assoc(E, L):
+        """loop that gives every row the number of its tuple"""
+        leaves, assoc = L["leaves"], L["association"]
+        _, item, pos = leaves.sorted_of
+        r = z3.Int(models.fresh_name("ar"))
+        k, n = z(L.k), z(L["X"].shape[0])
+        return {"rows_seen_so_far_carry_the_number_of_their_tuple_the_others_minus_one": z3.ForAll([r], z3.Implies(z3.And(r >= 0, r < n), z3.If(
+            r < k, assoc.get(r) == z3.ToReal(pos(MappingTrain._rowkey(E, L, r))), assoc.get(r) == -1)))}
+
     def setup(self, E, v):
+        if v == "bins":
+            return self._setup_bins(E)
         m = E.size("node_count", 1)
         binner = models.new_estimator(E, "binner_", methods=ESTM + ("transform", "decision_path"), fitted=True)
         binner.fields["$fitted_attrs"] = {"tree_"}
@@ -354,6 +435,9 @@ class MappingTrain(Contract):
         return dict(self=s, X=E.nd("X", (E.size("n", 1), E.size("d", 1))), binner=binner, _m=m, _cl=cl, _cr=cr)
 
     def requires(self, E, a):
+        if a.get("_bins"):
+            MappingTrain._first(E, a)          # ghost definition (first half), stated before the code runs
+            return {}
         if "_m" not in a:
             return {}
         st = a.binner.fields["$state"]
@@ -375,7 +459,7 @@ class MappingTrain(Contract):
                     z3.Implies(z3.And(j >= 0, j < m, isleaf(j)), (R.pathF(st, row, j) == 1) == (j == applyF(st, row)))))}
 
     def old(self, E, a):
-        return dict(X=a.X.snapshot(), w=a.X.cell.writes) if "_m" in a else dict(callsite=True)
+        return dict(X=a.X.snapshot(), w=a.X.cell.writes) if ("_m" in a or a.get("_bins")) else dict(callsite=True)
 
     @staticmethod
     def _facts(E, X, st, mp, assoc, ntree, done, rank):
@@ -400,7 +484,45 @@ class MappingTrain(Contract):
         fm = E.registry.mask_info(E, mask)[0]
         done = lambda j: z3.And(j >= 0, j < z(mask.shape[0]), fm.get(j), rank(j) < z(L.k))
         return MappingTrain._facts(E, X, st, L["mapping"], L["association"], L["ntree"], done, rank)
-    loops = {0: _inv.__func__}
+    loops = {0: _inv.__func__, 1: _inv_unique.__func__, 2: _inv_number.__func__, 3: _inv_assoc.__func__}
+
+    def _ensures_bins(self, E, a, res, old):
+        from pyvc import sparsemodel
+        ok = isinstance(res, tuple) and len(res) == 3 and isinstance(res[0], NdArr) and type(res[1]).__name__ == "SymMap" \
+            and getattr(res[2], "sorted_of", None) is not None
+        out = {"association_mapping_leaves": z3.BoolVal(ok)}
+        if not ok:
+            return out
+        assoc, mp, leaves = res
+        uset, item, pos = leaves.sorted_of
+        n = z(a.X.shape[0])
+        r, key, k2 = z3.Int(models.fresh_name("r")), z3.Const(models.fresh_name("key"), sparsemodel.Key), z3.Const(models.fresh_name("k2"), sparsemodel.Key)
+        rk = lambda rr: MappingTrain._rowkey(E, a, rr)
+        val = lambda kk: z3.Select(mp.value, kk)
+        out["every_training_row_gets_the_number_of_its_cell"] = z3.And(z(assoc.shape[0]) == n, z3.ForAll([r], z3.Implies(z3.And(r >= 0, r < n), z3.And(
+            z3.Select(mp.member, rk(r)), assoc.get(r) == z3.ToReal(val(rk(r))), val(rk(r)) >= 0, val(rk(r)) < z(mp.count)))))
+        out["bucket_numbers_are_0_to_len_minus_1_without_repetition"] = z3.And(
+            z(mp.count) == z(leaves.length),
+            z3.ForAll([key], z3.Implies(z3.Select(mp.member, key), z3.And(val(key) >= 0, val(key) < z(mp.count)))),
+            z3.ForAll([key, k2], z3.Implies(z3.And(z3.Select(mp.member, key), z3.Select(mp.member, k2), key != k2), val(key) != val(k2))))
+        first = MappingTrain._first(E, a, with_definition=True)
+        out["one_bucket_per_cell_that_holds_a_training_row_and_no_other"] = z3.ForAll([key], z3.Implies(z3.Select(mp.member, key), z3.And(
+            first(key) >= 0, first(key) < n, rk(first(key)) == key)))
+        out["leaves_lists_the_cells_in_the_order_of_their_numbers"] = z3.ForAll([r], z3.Implies(z3.And(r >= 0, r < z(leaves.length)), z3.And(
+            z3.Select(mp.member, item(r)), val(item(r)) == r)))
+        out["training_data_not_written"] = z3.BoolVal(a.X.cell.writes == old["w"])
+        return out
+
+    @staticmethod
+    def _canary_numbers_start_at_one(E, a, res, old):
+        """must NOT verify: bucket numbers start at 0, in both branches"""
+        if old.get("callsite") or not (isinstance(res, tuple) and len(res) == 3 and type(res[1]).__name__ == "SymMap"):
+            return z3.BoolVal(True)
+        mp = res[1]
+        key = z3.Const(models.fresh_name("ck"), mp.key_sort())
+        return z3.ForAll([key], z3.Implies(z3.Select(mp.member, key), z3.Select(mp.value, key) >= 1))
+
+    canaries = {"bucket_numbers_start_at_one": lambda E, a, res, old: MappingTrain._canary_numbers_start_at_one(E, a, res, old)}
 
     def result(self, E, a, old):
         # summary used by fit (bounded in the number of buckets there: 1..2 entries of a concrete dictionary)
@@ -418,6 +540,8 @@ class MappingTrain(Contract):
     def ensures(self, E, a, res, old):
         if old.get("callsite"):
             return {}
+        if a.get("_bins"):
+            return self._ensures_bins(E, a, res, old)
         ok = isinstance(res, tuple) and len(res) == 3 and isinstance(res[0], NdArr) and type(res[1]).__name__ == "SymMap"
         out = {"association_mapping_leaves": z3.BoolVal(ok)}
         if not ok:
@@ -509,7 +633,9 @@ META = dict(
     level="proof", lean_files=["lemmas/Sums.lean"], assumptions=["A1", "A2", "A6", "A7", "A8", "A9"],
     trusted=["_mapping_train, TREE binner: PROVED on its own (real loop over the leaves, dictionary of unbounded symbolic size): buckets numbered 0..len-1 "
              "without repetition, every training row carries the number of its leaf, leaves_ = all leaves, and this IS the well-formedness "
-             "transform_bins / predict require.  The discretizer branch of _mapping_train (sets of tuples, sorted) is bounded only, and fit uses a "
+             "transform_bins / predict require.  The discretizer branch of _mapping_train is proved as well (set and dictionary of cell tuples of "
+             "unbounded symbolic size; sorted(set) = a sequence without repetition of exactly its elements - the order of tuples is not modelled "
+             "and nothing depends on it; ghost 'first row with that cell', lemma first_occurrence in lemmas/Sums.lean).  fit uses a "
              "summary of _mapping_train with 1..2 buckets (concrete dictionary) - the link summary <-> proved postcondition is by inspection",
              "object invariant of a fitted estimator, stated as a PRECONDITION of predict / transform_bins: mapping_ sends bucket keys to positions of "
              "estimators_; for a tree binner leaves_ are node ids and every row's decision path contains exactly one of them (scikit-learn trees: "
